@@ -34,7 +34,7 @@ class C09(BaseCheck):
              'scales.resurrector:ResurrectorSink.AsyncProcessRequest', 'scales.resurrector:ResurrectorSink.Close')
   REQUIRED_ANCHORS = ANCHORS
   REQUIRED_CLASSES = ('thrift', 'mux', 'multi-endpoint', 'outage:refuse', 'outage:blackhole', 'down-at-first-connect', 'recovered',
-                      'fail-fast-seen', 'backoff-capped', 'closed-while-down', 'back-under-the-same-name-at-another-address', 'peer-pings-the-client-too', 'outage-begins-mid-reply', 'closed-on-error', 'staggered-outages',
+                      'fail-fast-seen', 'backoff-capped', 'closed-while-down', 'back-under-the-same-name-at-another-address', 'peer-pings-the-client-too', 'outage-begins-mid-reply', 'closed-before-the-open-ran', 'closed-on-error', 'staggered-outages',
                       'recover:first-down-first', 'recover:last-down-first', 'rotation-during-outage', 'waiters-at-outage', 'stock-resurrector',
                       'direct:close-same-instant-attempt-completes', 'outage:host-goes-silent', 'outage:host-goes-silent-mux', 'outages:thrift', 'outages:mux', 'outage:accept-drop')
   ASSUMPTIONS = ('initial_wait_interval > 1 (the implementation\'s x**exponent back-off only grows above 1)',
@@ -343,6 +343,25 @@ class C09(BaseCheck):
     kind = ('thrift', 'mux')[(idx // 2) % 2]      # (this scenario only gets even indices)
     classes = {kind, 'outages:' + kind}
     self._direct(env, rng, out, classes)
+    if idx % 10 == 6:
+      # a client that is closed right after it was built without waiting for its open (the open has not even
+      # begun, or is still under way), with its only endpoint unreachable: closed is closed
+      classes.add('closed-before-the-open-ran')
+      w0 = StackWorld(env, rng, kind=kind, n_eps=1, balancer=rng.choice(['aperture', 'heap']), timeout=1.0, open_timeout=0,
+                      resurrector={'initial_wait_interval': 1.5, 'max_wait_interval': 3, 'backoff_exponent': 1.2},
+                      server_modes=[rng.choice(['refuse', 'blackhole'])])
+      w0.servers[0].sim.syn_timeout = 1.0
+      if rng.random() < 0.3:
+        env.advance(0.0003)        # (otherwise not even a yield: the balancer's open has not begun)
+      w0.close()
+      t_close0 = env.now
+      env.advance(20.0)
+      out.obligations += 1
+      late0 = [a for a in w0.servers[0].sim.connect_attempts if a[0] > t_close0 + EPS]
+      if late0:
+        out.violate('close:reconnect-after-close', '%d connect attempt(s) after DispatcherClose() of a client that was closed right '
+                    'after Build() (open not awaited), first %.2fs later' % (len(late0), late0[0][0] - t_close0),
+                    {'stack': kind, 'closed_before_open_ran': True})
     init, mx, ex = rng.choice([(5, 60, 1.2), (5, 60, 1.2), (2, 20, 1.5), (1.5, 10, 1.2), (5, 5, 1.2)])
     delta = rng.choice([0.25, 0.5, 1.0])
     first_down = rng.random() < 0.3
